@@ -246,3 +246,18 @@ Theorem C18_src_scriptlet_order :
   DepsGen.scriptlet_order = [DepsGen.G_gate; DepsGen.G_kind; DepsGen.G_deps; DepsGen.G_push_self_if_absent].
 Proof. exact Struct_Deps_Proofs.scriptlet_order_is_model. Qed.
 Print Assumptions C18_src_scriptlet_order.
+
+(* `ResourceStorage::add_resource`: its statements in source order (Generated.AddResGen), run over
+   the two maps with a rejection returning the store as it is at that point, ARE the model's
+   add_resource; a rejected resource therefore leaves nothing behind (no alias of it stays
+   registered): every rejecting statement precedes every inserting one *)
+Theorem C18_src_add_resource_is_model : forall (st : store) (r : resource),
+  Struct_Deps_Proofs.interp_add_resource st r = Some (add_resource st r).
+Proof. exact Struct_Deps_Proofs.interp_add_resource_is_model. Qed.
+Print Assumptions C18_src_add_resource_is_model.
+
+Theorem C18_src_rejected_add_changes_nothing : forall (st : store) (r : resource) (e : add_err),
+  Struct_Deps_Proofs.interp_add_resource st r = Some (fst (add_resource st r), Some e) ->
+  fst (add_resource st r) = st.
+Proof. exact Struct_Deps_Proofs.rejected_add_changes_nothing. Qed.
+Print Assumptions C18_src_rejected_add_changes_nothing.
